@@ -135,7 +135,7 @@ class C08(Check):
             'outstanding at once')
     floors = {'interleaved': 0.5}
     quick_examples = 700
-    thorough_examples = 2500
+    thorough_examples = 6000
     assumptions = EngineCheck.assumptions
 
     def strategy(self, tier):
@@ -234,7 +234,7 @@ class C13(Check):
             'outstanding')
     floors = {'ended-with-outstanding': 0.4}
     quick_examples = 600
-    thorough_examples = 500
+    thorough_examples = 3000
     assumptions = EngineCheck.assumptions
 
     def strategy(self, tier):
